@@ -63,6 +63,8 @@ func (e *c13Env) newNursery(inc *ccInc, db kvdb.Backend) (*UtxoNursery,
 		return nil, err
 	}
 	e.rawStore = store
+	// (for the guard of the crib late-registration finding)
+	n.cfg.Store = &c13CribStore{NurseryStorer: n.cfg.Store, env: e}
 
 	return n, nil
 }
